@@ -256,6 +256,15 @@ func runParseWith(seed int64, p *ProgDef, argv []string, hook func(*Built)) *Par
 		obs.Values = append(obs.Values, fmt.Sprintf("%s(%s)=%s called=%v as=%q", o.Name, kindNames[o.Kind], tValue(post.Options[i]).SexpString(), post.Options[i].Called, post.Options[i].UsedAlias))
 	}
 	obs.features()
+	for i, o := range pre.Options {
+		// C06, also when Parse fails: an option this command line named (CalledAs was empty before and
+		// names a spelling now) was given on the command line, so Called says so
+		if o.UsedAlias == "" && post.Options[i].UsedAlias != "" && !post.Options[i].Called {
+			obs.Oracle["C06"] = append(obs.Oracle["C06"], OracleHit{Key: "calledas-without-called",
+				What: fmt.Sprintf("after Parse(%q) (error: %q) CalledAs(%q) is %q but Called(%q) is false", argv, obs.Err, o.Name, post.Options[i].UsedAlias, o.Name)})
+			break
+		}
+	}
 	obs.accessPaths(b, p, post)
 	obs.HelpText = b.Opt.Help()
 	if repeatRuns > 1 {
